@@ -394,6 +394,13 @@ def install_structure(E):
         t, s, f = params[1].term, params[2].term, params[3].term
         ins = ('app', SIMP, ('app', 'RAW_CHOICE', t, s, f))
         r = I.W.rep(res.term) if isinstance(res, VBdd) else None
+        # simplify written out in place (`if *t == *f { t } else { Rc::new(Choice(t, s, f)) }`): in a world that has decided the comparison of
+        # the two children, simplify(Choice(t,s,f)) is t, respectively the node itself
+        tr, fr = I.W.rep(t), I.W.rep(f)
+        beq = ('beq',) + tuple(sorted((tr, fr), key=repr))
+        if r != ins:
+            if tr == fr and any(k[0] == 'beq' for k in I.W.used): ins = tr
+            elif I.W.dec.get(beq) is False and beq in I.W.used: ins = I.W.rep(('app', 'RAW_CHOICE', t, s, f))
         out = [I.E.check_true(I, r == ins, 'E2: mk_choice returns simplify(Choice(t,s,f)) - a table hit for it or the node just inserted', {'got': show_key(r) if r else repr(res), 'expected': show_key(ins)})]
         inserts = [ev for ev in I.events if ev[0] == 'table_insert']
         gets = [ev for ev in I.events if ev[0] == 'table_get']
@@ -402,7 +409,7 @@ def install_structure(E):
         if hit == 'some':
             out.append(I.E.check_true(I, not inserts, 'E2: no insertion when the node is already in the table', {'inserts': len(inserts)}))
         else:
-            ok = len(inserts) == 1 and inserts[0][1] == NODES and inserts[0][2] == ins and inserts[0][3] == ins
+            ok = len(inserts) == 1 and inserts[0][1] == NODES and (inserts[0][2] == ins or I.W.rep(inserts[0][2]) == I.W.rep(ins)) and (inserts[0][3] == ins or I.W.rep(inserts[0][3]) == I.W.rep(ins))
             out.append(I.E.check_true(I, ok, 'E2: a missing node is inserted once with key == *value', {'inserts': [(show_key(i[2]), show_key(i[3])) for i in inserts]}))
         muts = [ev for ev in I.events if ev[0] == 'cell_borrow' and ev[2]]
         out.append(I.E.check_true(I, len(muts) == 1, 'E3: one mutable borrow of the table per mk_choice', {'n': len(muts)}))
